@@ -162,11 +162,15 @@ func (t logTicker) TicksAtLevel(level int) interface{} {
 		// ticks, but round out so we can fill in
 		// minor ticks outside of the major ticks.
 		firstN, lastN, _ := t.s.spacingAtLevel(0, true)
+		// Major ticks are admitted with a little slack (see
+		// spacingAtLevel). Admit the same powers here so that
+		// every major tick is also a minor tick.
+		majFirstN, majLastN, _ := t.s.spacingAtLevel(0, t.roundOut)
 		for n := firstN; n <= lastN; n++ {
 			tick := math.Pow(float64(t.s.Base), n)
 			step := tick
 			for i := 0; i < t.s.Base-1; i++ {
-				if min <= tick && tick <= max {
+				if (min <= tick && tick <= max) || (i == 0 && majFirstN <= n && n <= majLastN) {
 					ticks = append(ticks, tick)
 				}
 				tick += step
